@@ -19,7 +19,7 @@ CHECKS = {
    "No symlinks in the tree; Linux path semantics; snapshot attribution is batch-wise (changes allowed in the receive dir once any WRQ of the batch was accepted).",
    "bounded-exhaustive name enumeration + proptest, filesystem-snapshot oracle against the real binary", "4/C03"),
  "C04": ("sim", "fault_enumeration",
-   "Every placement of 1 and 2 faults (thorough 3) of 4 kinds over all datagrams of both directions for windowsize 1..4 (5), 6 lengths x 3 last-block shapes, 2 peer styles, both roles, plus proptest random fault lists (<=5 faults), 6..11 isolated faults three windows apart, a wire part with 1..5 consecutive losses against the real tftpd at timeout 1 s, and the real tftpc against the real tftpd through a relay that drops one data-phase datagram; oracle = model peer holds the complete file and the worker ended successfully (RFC 1350 last-ACK exception only).",
+   "Every placement of 1 and 2 faults (thorough 3) of 4 kinds over all datagrams of both directions for windowsize 1..4 (5), 6 lengths x 3 last-block shapes, 2 peer styles, both roles, plus proptest random fault lists (<=5 faults), 6..11 isolated faults three windows apart, a wire part with 1..5 consecutive losses against the real tftpd at timeout 1 s, and the real tftpc against the real tftpd through a relay that drops one data-phase datagram (thorough: also with a negotiated timeout of 28 / 31 s, real time); negotiated timeouts of 1..255 s in the simulator (virtual time); oracle = model peer holds the complete file and the worker ended successfully (RFC 1350 last-ACK exception only).",
    "Precondition by construction (<=5 faults, peer timer = worker timeout). Exhaustive only inside the stated box.",
    "exhaustive fault-placement enumeration + proptest, completion oracle with a conformant model peer", "4/C04"),
  "C05": ("wire", "exploration",
@@ -27,7 +27,7 @@ CHECKS = {
    "At most 29 datagrams per fresh server; volume-based exhaustion not explored.",
    "proptest sequence generation + mutation against the real binary, liveness-probe oracle", "4/C05"),
  "C06": ("wire", "exploration",
-   "Exhaustive decision table (32 configurations x RRQ/WRQ x 11 targets x {plain, with an unhonourable option value where a refusal is due}) plus model-based testing: proptest generates a configuration and a history of <=11 requests; a reference decision table and model filesystem predict each reply class and the exact tree; the real send/receive trees are compared byte-for-byte with the model after every step.",
+   "Exhaustive decision table (32 configurations x RRQ/WRQ x 11 targets x {plain, with an unhonourable option value where a refusal is due}) plus model-based testing: proptest generates a configuration and a history of <=11 requests; served files are replaced on disk between requests (an acknowledged tsize must be the current size); a reference decision table and model filesystem predict each reply class and the exact tree; the real send/receive trees are compared byte-for-byte with the model after every step.",
    "Targets live in existing directories; aborted uploads follow C13's clean/keep rule in the model.",
    "model-based stateful proptest (decision table + model filesystem) against the real binary", "4/C06"),
  "C07": ("sim", "fault_enumeration",
@@ -39,7 +39,7 @@ CHECKS = {
    "Stale ACK numbers never alias an outstanding block; handshake is left undisturbed.",
    "proptest adversarial-script generation with a virtual clock, trace-predicate oracle", "4/C08"),
  "C09": ("wire", "exploration",
-   "Deterministic boundary sweep and all 65 ordered option selections, then proptest generates subsets/orders/cases of the four options with boundary and unhonourable values (also > 2^16 and > 2^32 non-multiples), unknown options interleaved (also runs of 6-15 of them), RRQ/WRQ, both port modes; OACK truthfulness rules and then the measured transfer (exact block length, exact burst size incl. windows larger than the socket buffer, ACK after exactly W blocks, retransmission not before the acknowledged timeout, content).",
+   "Deterministic boundary sweep and all 65 ordered option selections, then proptest generates subsets/orders/cases of the four options with boundary and unhonourable values (also > 2^16 and > 2^32 non-multiples), unknown options interleaved (also runs of 6-15 of them), a recognised option repeated with one unhonourable value, a tsize beyond 64 bits on a WRQ, a second tsize query after the file was replaced, RRQ/WRQ, both port modes; OACK truthfulness rules and then the measured transfer (exact block length, exact burst size incl. windows larger than the socket buffer, ACK after exactly W blocks, retransmission not before the acknowledged timeout, content).",
    "Timeouts > 255 not generated; timing tolerance 130 ms; big-window cases need SO_RCVBUFFORCE (skipped otherwise).",
    "proptest option-grammar generation against the real binary, reference negotiation rules + measured transfer", "4/C09"),
  "C10": ("pure", "exploration",
@@ -51,15 +51,15 @@ CHECKS = {
    "Trusts harness/src/refcodec.rs as the statement of the RFC layout.",
    "proptest grammar-based generation, differential against independent codec, exhaustive u16 sweep", "4/C11"),
  "C12": ("wire", "exploration",
-   "K model clients against one real tftpd with a generated single-threaded schedule (= arrival order at the listener) and injected foreign/stray datagrams; exhaustive interleavings for K=2 short transfers in both port modes, proptest for K<=16; a paced conformant transfer that outlives six timeouts while other clients are served; oracle = per-client content, source ports, ERROR replies to ownerless endpoints, no leak.",
+   "K model clients against one real tftpd with a generated single-threaded schedule (= arrival order at the listener) and injected foreign/stray datagrams (also late ones to a former transfer endpoint); exhaustive interleavings for K=2 short transfers in both port modes, proptest for K<=16; a paced conformant transfer that outlives six timeouts while other clients are served; oracle = per-client content, source ports, ERROR replies to ownerless endpoints, no leak.",
    "Interleaving granularity = one request or window per step; server-internal bind/connect gap not schedulable.",
    "exhaustive 2-client interleavings + proptest schedules against the real binary", "4/C12"),
  "C13": ("sim", "fault_enumeration",
-   "Every abort point (silence / peer ERROR at every receive position; write error via RLIMIT_FSIZE at every block edge) x clean/keep x windowsize 1..4 (6) in the simulator plus proptest; a wire part aborts real uploads (with/without tsize, clean/keep, ERROR/silence) and generates duplicate/retransmitted WRQ histories against the real tftpd, waiting out the stale workers. Known finding F6 (signature stale-upload-worker-cleanup) is tolerated for exactly that outcome and printed as KNOWN-FINDING.",
+   "Every abort point (silence / peer ERROR at every receive position; write error via RLIMIT_FSIZE at every block edge) x clean/keep x windowsize 1..4 (6) in the simulator plus proptest; a wire part aborts real uploads (with/without tsize, clean/keep, ERROR/silence) and generates duplicate/retransmitted WRQ histories against the real tftpd, waiting out the stale workers, and a later WRQ for the name that is never accepted (unhonourable option): the completed file must stay. Known finding F6 (signature stale-upload-worker-cleanup) is tolerated for exactly that outcome and printed as KNOWN-FINDING.",
    "Write errors only as EFBIG; the no-overwrite create/exists race is judged whichever way it falls.",
    "exhaustive abort-point enumeration + proptest, directory post-condition oracle; wire histories", "4/C13"),
  "C14": ("wire", "exploration",
-   "The real tftpc against the real tftpd: a deterministic size x option grid and proptest over direction x port mode x IPv4/IPv6 x path style x blksize x windowsize x timeout x size families x refusal kinds x server --duplicate-packets x client --keep-on-error x stale destination file x lower/upper/mixed-case basenames, plus 65536- and 65538-block transfers; oracle = byte-identical files at the documented locations, refusal behaviour, termination within a watchdog.",
+   "The real tftpc against the real tftpd: a deterministic size x option grid and proptest over direction x port mode x IPv4/IPv6 x path style x blksize x windowsize x timeout x size families x refusal kinds x server --duplicate-packets x client --keep-on-error x stale destination file x lower/upper/mixed-case basenames x uploads that also carry -rd (decoy file there), plus 65536- and 65538-block transfers; oracle = byte-identical files at the documented locations, refusal behaviour, termination within a watchdog.",
    "One burst kept below 100 KB (loopback drops); absolute local paths not generated.",
    "proptest configuration generation driving both real binaries, file-equality oracle", "4/C14"),
  "C15": ("sim", "exploration",
@@ -71,7 +71,7 @@ CHECKS = {
    "The 1 ms sleep between copies is not judged.",
    "proptest over the simulated socket and an in-memory worker pair, multiplicity oracle; wire grid", "4/C16"),
  "C17": ("pure", "exploration",
-   "proptest argument vectors over the full server and client flag sets (valid/invalid values, repeats, unknown flags, dangling flag, mixed-case file names and flag look-alikes) compared field by field with a reference parser, plus a metamorphic re-parse of a permutation that keeps each flag's last occurrence; exhaustive ordered selections of <=4 of 16 representative groups.",
+   "proptest argument vectors over the full server and client flag sets (valid/invalid values, repeats, unknown flags, dangling flag, mixed-case file names and flag look-alikes, relative directories) compared field by field with a reference parser, plus a metamorphic re-parse of a permutation that keeps each flag's last occurrence; exhaustive ordered selections of <=4 of 16 representative groups.",
    "-h/--help excluded (exits the process).",
    "proptest + exhaustive permutations, reference parser and permutation metamorphic relation", "4/C17"),
  "C18": ("pure", "exploration",
